@@ -405,6 +405,15 @@ func (h *http2FrameTracer) traceFrameLocked(data []byte) (int, bool) {
 }
 
 func (h *http2FrameTracer) emitFrame() bool {
+	switch h.header.Type { //nolint:exhaustive
+	case http2.FrameHeaders, http2.FramePushPromise, http2.FrameContinuation:
+		if !h.header.Flags.Has(http2.FlagHeadersEndHeaders) {
+			// The header block continues in CONTINUATION frame(s), which must
+			// immediately follow. The framer below needs to see all of them
+			// at once, so keep accumulating until the block is complete.
+			return true
+		}
+	}
 	defer func() {
 		h.frame.Reset()
 	}()
